@@ -261,6 +261,16 @@ fn run_history(ops: &[ROp], sched: &[usize], istrings: &[String], replica: usize
                 let x = join(&mut eg, &small);
                 let y = join(&mut eg, &big);
                 eg.union(&x, &y);
+                // a rewrite iteration of its own (whatever a call of apply_rewrites leaves behind in the process must not show)
+                let own_rule: Rewrite<Sym> = Rewrite::new("own", "(lam $z (h $z))", "c");
+                apply_rewrites(&mut eg, &[own_rule]);
+                // parse errors of its own: deeply nested texts that end badly (an unknown operator, a missing bracket)
+                for depth in [110usize] {
+                    let bad = format!("{}(nosuch{}", "(u ".repeat(depth), ")".repeat(depth));
+                    assert!(RecExpr::<Sym>::parse(&bad).is_err());
+                    let bad = format!("{}c", "(u ".repeat(depth));
+                    assert!(Pattern::<Sym>::parse(&bad).is_err());
+                }
                 // ... and in a language whose operators are spelled like the history's but take their payloads elsewhere
                 let mut sh = EGraph::<crate::langs::Shadow>::default();
                 for t in ["(call f (var $z))", "(call f x)", "(add f (var $z))", "(add f x)", "(mul (var $z) f)", "(mul x f)", "(app f x)"] {
